@@ -207,6 +207,42 @@ def handle (op : String) (args : List String) : Option String := do
         | 1 => (v3Of ps).map (fun t => C17Mesh.translateAttr m attr t)
         | _ => do let o ← v3Of (ps.take 3); let a ← v3Of (ps.drop 3); pure (C17Mesh.scaleAttr m attr o a)
       pure (meshOut r)
+  -- oracle for Props/C17Mesh.lean: `MovesPointwise` (rejected iff the attribute is missing; otherwise exactly that attribute becomes
+  -- the pointwise image — relative tolerance 1e-9 — and the other attribute, the indices, the topology are untouched, no other
+  -- attribute appears), evaluated on the IMPLEMENTATION's result. args: as c17.meshop, then the encoded result
+  | "c17.holds.meshop" => do
+      let kind := (fs.getD 0 0).toUInt64.toNat
+      let sel := (fs.getD 1 0).toUInt64.toNat
+      let np := match kind with | 0 => 4 | 1 => 3 | _ => 6
+      let ps := (fs.drop 2).take np
+      let n := ((fs.drop (2 + np)).getD 0 0).toUInt64.toNat
+      let pos := v3List ((fs.drop (3 + np)).take (3 * n))
+      let nrm := v3List ((fs.drop (3 + np + 3 * n)).take (3 * n))
+      let res := fs.drop (3 + np + 6 * n)
+      let g : V3 Float → Option (V3 Float) := fun v =>
+        match kind with
+        | 0 => (qOf ps).map (fun q => q.Rotate v)
+        | 1 => (v3Of ps).map (fun t => v.Add t)
+        | _ => do let o ← v3Of (ps.take 3); let a ← v3Of (ps.drop 3); pure (o.Add ((v.Sub o).MultByVector a))
+      let flag := res.getD 0 9
+      if sel ≥ 2 then pure (boolStr (flag == 1 && res.length == 1))   -- attribute missing: must be rejected
+      else if flag != 0 then pure "false" else
+      -- both attributes must still be present (n ≥ 1)
+      if res.getD 1 0 != 1 || res.getD (2 + 3 * n) 0 != 1 then pure "false" else
+      let outPos := v3List ((res.drop 2).take (3 * n))
+      let outNrm := v3List ((res.drop (3 + 3 * n)).take (3 * n))
+      let rest := res.drop (3 + 6 * n)
+      let nIdx := (rest.getD 0 0).toUInt64.toNat
+      let idx := (rest.drop 1).take nIdx
+      let wantIdx : List Float := (List.range (n - 2)).flatMap fun i => [Float.ofNat i, Float.ofNat (i + 1), Float.ofNat (i + 2)]
+      let tailOk := (rest.drop (1 + nIdx)).map fHex == [fHex 0, fHex 0]
+      let same := fun (a b : List (V3 Float)) => (a.flatMap v3To).map fHex == (b.flatMap v3To).map fHex
+      let moved := fun (old out : List (V3 Float)) => old.length == out.length && (old.zip out).all fun (v, o) =>
+        match g v with
+        | some w => allClose 1e-9 (v3To w) (v3To o)
+        | none => false
+      let (chOld, chOut, keepOld, keepOut) := if sel == 0 then (pos, outPos, nrm, outNrm) else (nrm, outNrm, pos, outPos)
+      pure (boolStr (moved chOld chOut && same keepOld keepOut && idx.map fHex == wantIdx.map fHex && tailOk))
   -- mesh / array level oracle: out must be the pointwise image (kind: 0 rotate q, 1 translate t, 2 scale s, 3 TRS p r s)
   | "c17.holds.pointwise" => do        -- args: kind, params (4|3|3|10), n, points (3n), out (3n)
       let kind := (fs.getD 0 0).toUInt64.toNat
